@@ -1,6 +1,7 @@
 From Coq Require Import Extraction ExtrOcamlBasic QArith.
-From BCT Require Import Model.Generators.
+From BCT Require Import Model.Generators Model.GeneratorsExt.
 Extraction Language OCaml.
 (* coqc runs with cwd = /verif/coq *)
 Extraction "../ocaml/gen/c20_model.ml" run_rand_dir run_rand_und run_ring run_toeplitz run_fractal run_even
-  run_degfixed run_template Qred Z.add.
+  run_degfixed run_template
+  run_toeplitz_pf run_toep_template run_rand_dir_z run_rand_und_z run_ring_z run_even_z run_degfixed_chk Qred Z.add.
